@@ -225,7 +225,7 @@ func (ex *Exec) havocAll(st *State) {
 	for _, n := range names {
 		st.heap[n] = Fresh(n, ex.heapSrt[n])
 		if ex.wlog != nil {
-			ex.wlog.heaps[n] = true
+			ex.wlog.logHeap(n, nil)
 		}
 	}
 	ex.havocEpoch++
@@ -303,6 +303,7 @@ func (ex *Exec) callSiteEnv(fr *Frame, st *State, key string, fn *ssa.Function, 
 	}
 	env.frame = fr
 	env.old = fr.env0
+	env.wmPre = ex.entry.wm
 	i := 0
 	if sig.Recv() != nil {
 		if i < len(args) {
